@@ -34,6 +34,14 @@ CHECKS = {
     technique="exhaustive enumeration of guarded bodies x operand vectors (valid and invalid) x 12 guard realisations on the real code, plus witness-space enumeration of the enclosing selection",
     text="Every depth-1 program (and depth-2 composition) as a guarded body on every operand vector of D(n), under integer- and boolean-typed guards 0/1, two nested guards (4 combinations) and the lazily evaluated then-/else-branch of if_then_else: effective guard 0 => no value-caused exception, whole system satisfied by the recorded witness, value==wire, selection returns the other branch and (all prover choices enumerated) is uniquely that; effective guard 1 => same value or same exception class as unguarded, and the same set of provable results with and without ignore_errors.",
     note="A raise under a false guard is skipped only if it is value-independent (the group never completes unguarded and every vector raises the same class under that guard: invalid public literal or an operation the operand types do not offer). Witness-space part at bitlength 2 (quick) / 2-3 (thorough)."),
+ "C08": dict(cat="model_checking", design="3/C08, 2.4",
+    technique="exhaustive enumeration of guard/branch histories (well-nested event trees) executed on the real code in six realisations, state compared with a reference stack model after every event",
+    text="All well-nested histories up to event cost 7 (quick) / 8 (thorough) and nesting depth 3 over the events enter (8 kinds of condition: boolean/integer-typed secret 0/1, public 1, and the refused ones public 0, secret 2, wrong type), leave, API op, user exception, value error, try/except; each realised as guarded(c)(f)(), as lazily evaluated then-/else-branch of if_then_else, and as _if / _else / _while blocks. After every event: the triple (guard, ignore_errors, LinComb.ONE) is identical to the one before the matching enter on every exit path, a refused enter changes nothing, inside regions guard value and wire equal the product of the enclosing conditions, is_guard()/ignore_errors() agree with it and constants evaluate to k*guard.",
+    note="An exception escaping a block-API region without its closing call gives the library no event to act on and is outside what the API can express (such histories are skipped for the block realisations and counted)."),
+ "C09": dict(cat="model_checking", design="3/C09, 2.5",
+    technique="exhaustive enumeration of generated block programs x all inputs of a small domain, each executed against a native-control-flow twin emitted from the same AST",
+    text="Every program of the grammar assign | if/elif/else | while+breakif | for _range(secret stop, public max) | lazily evaluated selection (5 secret conditions, loop maxima 2-3, nesting 1 quick / 2 thorough, with explicit ctx= and with local-variable context lookup) is exec-ed twice (oblivious API on secrets, native Python on ints) on all (x,y) in {0..3}^2 (thorough: {-2..4}^2) x b x stop in 0..max: final values equal, recorder satisfied, value==wire, one canonical trace per program over all inputs, guard state clean and block stack empty, stop > max refused under checkstopmax.",
+    note="Public loop bounds/conditions are not in the statement's scope. Twin evaluations that divide by a negative number are skipped (known finding KF-C05-negdiv)."),
 }
 
 NOT_YET = {}
